@@ -86,7 +86,20 @@ ExportSeqs == {<<a, b>> : a \in Fmts, b \in Fmts} \cup {<<a, a, a>> : a \in Fmts
 DotFinal == {[op |-> "Dot", h |-> "d1",
               opts |-> [nary |-> a, labels |-> b, elattrs |-> c, relattrs |-> d, dir |-> o]]
                : a \in BOOLEAN, b \in BOOLEAN, c \in BOOLEAN, d \in BOOLEAN, o \in Opts}
-Final == IF FinalOp = "Dot" THEN DotFinal ELSE IF FinalOp = "Export"
+(* FinalOp = "Load" (C11): spellings of the document that the library's writers never produce. *)
+(* One flag at a time over a neutral base, plus everything at once.                            *)
+FBase == [arr1 |-> FALSE, recarr |-> FALSE, int |-> "bare", bool |-> "bare", str |-> "bare", float |-> "typed",
+          qn |-> "PROV", bprefix |-> FALSE, keys |-> "asis", indent |-> FALSE, subtype |-> FALSE, comment |-> FALSE]
+FlagSets ==
+  { FBase, [FBase EXCEPT !.arr1 = TRUE], [FBase EXCEPT !.recarr = TRUE], [FBase EXCEPT !.int = "typed"],
+    [FBase EXCEPT !.int = "typedstr"], [FBase EXCEPT !.int = "long"], [FBase EXCEPT !.bool = "typed"],
+    [FBase EXCEPT !.bool = "typedstr"], [FBase EXCEPT !.str = "typed"], [FBase EXCEPT !.float = "typedstr"],
+    [FBase EXCEPT !.qn = "QName"], [FBase EXCEPT !.bprefix = TRUE], [FBase EXCEPT !.keys = "reversed"],
+    [FBase EXCEPT !.indent = TRUE], [FBase EXCEPT !.subtype = TRUE], [FBase EXCEPT !.comment = TRUE],
+    [arr1 |-> TRUE, recarr |-> TRUE, int |-> "typedstr", bool |-> "typedstr", str |-> "typed", float |-> "typedstr",
+     qn |-> "PROV", bprefix |-> TRUE, keys |-> "reversed", indent |-> TRUE, subtype |-> TRUE, comment |-> TRUE] }
+LoadFinal == {[op |-> "Load", h |-> "d1", fmt |-> f, fl |-> x] : f \in Fmts, x \in FlagSets}
+Final == IF FinalOp = "Load" THEN LoadFinal ELSE IF FinalOp = "Dot" THEN DotFinal ELSE IF FinalOp = "Export"
          THEN {[op |-> "Export", h |-> "d1", seq |-> q] : q \in ExportSeqs}
          ELSE {[op |-> FinalOp, h |-> "d1", fmt |-> f, opts |-> o] : f \in Fmts, o \in Opts}
 ExtrasOf(e) == [i \in 1..Len(Vals[e[2]]) |-> <<AttrNames[e[1]], Vals[e[2]][i]>>]
